@@ -544,7 +544,7 @@ class SCFG(Sized):
         # an arc through the inserted block instead.
         for name in predecessors:
             block = self.graph.pop(name)
-            jt = list(block.jump_targets)
+            jt = list(block._jump_targets)
             if successors:
                 for s in successors:
                     if s in jt:
@@ -647,7 +647,7 @@ class SCFG(Sized):
         # an arc through the to be inserted block instead.
         for name in predecessors:
             block = self.graph[name]
-            jt = list(block.jump_targets)
+            jt = list(block._jump_targets)
             # Need to create synthetic assignments for each arc from a
             # predecessors to a successor and insert it between the predecessor
             # and the newly created block
